@@ -6,9 +6,9 @@ guess of the search is supplied by the harness as a finite table; a missing entr
 outside the range (`unmodelled`).
 
 Requests:
-  {"op":"bin1d","arr":[ints],"val":int,"g":[[lo,hi,guess],..]}            -> {"r":int} | {"e":name}
+  {"op":"bin1d","arr":[ints],"val":int,"g":[lo,hi,guess, lo,hi,guess, ..]}            -> {"r":int} | {"e":name}
   {"op":"hist","edges":{"f":[ints]}|{"n":[[ints],..]},"bins":null|nested,"init":int,
-   "fills":[{"c":{"s":int}|{"t":[ints]},"w":int,"g":[[axis,lo,hi,guess],..]},..]}
+   "fills":[{"c":{"s":int}|{"t":[ints]},"w":int,"g":[axis,lo,hi,guess, axis,lo,hi,guess, ..]},..]}
       -> {"e":name,"phase":"init"}
        | {"steps":[{"idx":[ints]|{"e":name}, "e":name}                     (fill raised; state kept)
                  |{"idx":.., "chg":[[[index],new],..], "oor":int},..],
@@ -38,20 +38,19 @@ def parseCoord (j : Json) : Option (Coord Int) :=
   | some x => some (.scalar x)
   | none => (intList? (getD j "t")).map Coord.tuple
 
-/-- table rows `[lo, hi, g]` -/
-def guess1 (tab : List (List Int)) (lo hi : Nat) : Int :=
-  match tab.find? (fun r => r.take 2 == [(lo : Int), (hi : Int)]) with
-  | some [_, _, g] => g
-  | _ => -1
+/-- flat table `lo, hi, g, lo, hi, g, …` -/
+def guess1 : List Int → Nat → Nat → Int
+  | l :: h :: g :: rest, lo, hi => if l == (lo : Int) && h == (hi : Int) then g else guess1 rest lo hi
+  | _, _, _ => -1
 
-/-- table rows `[axis, lo, hi, g]` -/
-def guessN (tab : List (List Int)) (k lo hi : Nat) : Int :=
-  match tab.find? (fun r => r.take 3 == [(k : Int), (lo : Int), (hi : Int)]) with
-  | some [_, _, _, g] => g
-  | _ => -1
+/-- flat table `axis, lo, hi, g, axis, lo, hi, g, …` -/
+def guessN : List Int → Nat → Nat → Nat → Int
+  | a :: l :: h :: g :: rest, k, lo, hi =>
+    if a == (k : Int) && l == (lo : Int) && h == (hi : Int) then g else guessN rest k lo hi
+  | _, _, _, _ => -1
 
-def parseTab (j : Json) : Option (List (List Int)) :=
-  if j.isNull then some [] else (arr? j).bind (fun a => a.toList.mapM intList?)
+def parseTab (j : Json) : Option (List Int) :=
+  if j.isNull then some [] else intList? j
 
 def exc (e : Err) : Json := Json.str e.name
 
@@ -77,22 +76,6 @@ def idxJson : Except Err (List Int) → Json
   | .ok l => ofIntList l
   | .error e => Json.mkObj [("e", exc e)]
 
-def runFills (h : Hist Int Int) : List Json → Option (List Json × Hist Int Int)
-  | [] => some ([], h)
-  | f :: rest => do
-    let c ← parseCoord (getD f "c")
-    let w ← int? (getD f "w")
-    let tab ← parseTab (getD f "g")
-    let g := guessN tab
-    let idx := idxJson (getBinOnValue g c h.edges)
-    match fill g h c w with
-    | .error e =>
-      let (steps, hf) ← runFills h rest
-      some (Json.mkObj [("idx", idx), ("e", exc e)] :: steps, hf)
-    | .ok h' =>
-      let (steps, hf) ← runFills h' rest
-      some (Json.mkObj [("idx", idx), ("chg", diffCells h.bins h'.bins), ("oor", ofInt h'.nOut)] :: steps, hf)
-
 def parseOps : List Json → Option (List ((Nat → Nat → Nat → Int) × Coord Int × Int))
   | [] => some []
   | f :: rest => do
@@ -101,6 +84,18 @@ def parseOps : List Json → Option (List ((Nat → Nat → Nat → Int) × Coor
     let tab ← parseTab (getD f "g")
     let r ← parseOps rest
     some ((guessN tab, c, w) :: r)
+
+def runFills (h : Hist Int Int) : List ((Nat → Nat → Nat → Int) × Coord Int × Int) → List Json × Hist Int Int
+  | [] => ([], h)
+  | (g, c, w) :: rest =>
+    let idx := idxJson (getBinOnValue g c h.edges)
+    match fill g h c w with
+    | .error e =>
+      let (steps, hf) := runFills h rest
+      (Json.mkObj [("idx", idx), ("e", exc e)] :: steps, hf)
+    | .ok h' =>
+      let (steps, hf) := runFills h' rest
+      (Json.mkObj [("idx", idx), ("chg", diffCells h.bins h'.bins), ("oor", ofInt h'.nOut)] :: steps, hf)
 
 def parseVals : List Json → Option (List ((Nat → Nat → Nat → Int) × Coord Int × Option Int))
   | [] => some []
@@ -126,14 +121,15 @@ def handle (j : Json) : Json :=
       match mkHist edges bins init with
       | .error e => Json.mkObj [("e", exc e), ("phase", "init")]
       | .ok h =>
-        match runFills h fills.toList, parseOps fills.toList with
-        | some (steps, hf), some ops =>
+        match parseOps fills.toList with
+        | some ops =>
+          let (steps, hf) := runFills h ops
           let all := match fillAll h ops with
             | .error e => Json.mkObj [("e", exc e)]
             | .ok ha => Json.mkObj [("bins", narrJson ha.bins), ("oor", ofInt ha.nOut)]
           Json.mkObj [("steps", Json.arr steps.toArray), ("bins", narrJson hf.bins), ("oor", ofInt hf.nOut),
                       ("nev", ofInt (getNevents hf true)), ("nev_in", ofInt (getNevents hf false)), ("all", all)]
-        | _, _ => err "bad fills"
+        | none => err "bad fills"
     | _, _, _, _ => err "bad hist args"
   | some "elem" =>
     match parseEdges (getD j "edges"), parseBins (getD j "bins"), int? (getD j "init"), int? (getD j "one"),
